@@ -143,6 +143,7 @@ def T.cells (side : Side) : T → Cells
   | .fail => []
   | .group _ ms => ms.cells side
   | .filter _ t f => if elseFirst side then f.cells side ++ t.cells side else t.cells side ++ f.cells side
+  | .hide _ => []     -- verifiers below a priority.Group are invisible to the handlers; not modelled
 def TL.cells (side : Side) : TL → Cells
   | .nil => []
   | .cons t l => t.cells side ++ l.cells side
@@ -169,6 +170,7 @@ def T.mprog (side : Side) (m : Msg) (off : Nat) : T → List Step
   | .filter c t f =>
     if c.holds side m then t.mprog side m (if elseFirst side then off + f.size side else off)
     else f.mprog side m (if elseFirst side then off else off + t.size side)
+  | .hide _ => []
 def TL.mprog (side : Side) (m : Msg) (agg : Bool) (off : Nat) : TL → List Step
   | .nil => []
   | .cons t l =>
@@ -188,6 +190,7 @@ def T.rprog (side : Side) (off : Nat) : T → List Step
     let pt := t.rprog side (if elseFirst side then off + f.size side else off)
     let pf := f.rprog side (if elseFirst side then off else off + t.size side)
     (resetVisits side).flatMap fun b => if b then pt else pf
+  | .hide _ => []
 def TL.rprog (side : Side) (off : Nat) : TL → List Step
   | .nil => []
   | .cons t l => t.rprog side off ++ l.rprog side (off + t.size side)
